@@ -930,6 +930,95 @@ def differential(rep, programs, impl, model, family, cls):
                 {"family": family, "class": cls, "program": p, "impl": a, "model": b})
 
 
+def exotic_array_stream(rep, rng, count):
+    """Oracle-only stream on the real objects, outside the Gaussian-integer model: arrays that are
+    not plain C-ordered integer arrays - object-dtype entries (Python complex, Fractions, sympy
+    expressions with I), Fortran-ordered and transposed views, flattened input for multi-wire
+    types.  A Tensor is its entries: dagger is the conjugate transpose entry by entry, the way
+    the input array is laid out in memory is irrelevant, then is the matrix product."""
+    import sympy
+    from fractions import Fraction
+    from discopy.tensor import Dim, Tensor
+    bad = 0
+
+    def fail(what, payload):
+        nonlocal bad
+        bad += 1
+        rep.count("oracle:exotic-array:FAIL")
+        if bad <= 4:
+            rep.violation(what, payload)
+
+    def conj(x):
+        return x.conjugate() if hasattr(x, "conjugate") else x
+
+    def eq(a, b):
+        try:
+            return bool(sympy.simplify(sympy.sympify(a) - sympy.sympify(b)) == 0)
+        except Exception:   # noqa
+            return a == b
+    phi = sympy.Symbol("phi", real=True)
+    for k in range(count):
+        dom = [rng.choice([2, 3]) for _ in range(rng.randint(0, 2))]
+        cod = [rng.choice([2, 3]) for _ in range(rng.randint(0, 2))]
+        m, n = int(numpy.prod(dom or [1])), int(numpy.prod(cod or [1]))
+        kind = rng.choice(["pycomplex", "sympy", "fraction", "fortran", "view", "flat-fortran"])
+        rep.count("stream:exotic-arrays")
+        rep.count("exotic:" + kind)
+        try:
+            if kind in ("pycomplex", "sympy", "fraction"):
+                def entry():
+                    if kind == "pycomplex":
+                        return complex(rng.randint(-3, 3), rng.randint(-3, 3))
+                    if kind == "fraction":
+                        return Fraction(rng.randint(-5, 5), rng.randint(1, 4))
+                    return rng.randint(-2, 2) + sympy.I * rng.randint(-2, 2) + (phi if rng.random() < 0.3 else 0)
+                data = numpy.empty((m, n), dtype=object)
+                for i in range(m):
+                    for j in range(n):
+                        data[i, j] = entry()
+                t = Tensor(Dim(*dom), Dim(*cod), data)
+                d = t.dagger()
+                got = numpy.asarray(d.array, dtype=object).reshape(n, m)
+                ok = d.dom == Dim(*cod) and d.cod == Dim(*dom) and all(
+                    eq(got[j, i], conj(data[i, j])) for i in range(m) for j in range(n))
+                if not ok:
+                    fail("dagger of a tensor with %s entries is not the conjugate transpose" % kind,
+                         {"dom": dom, "cod": cod, "array": repr(data.tolist())[:400], "got": repr(got.tolist())[:400]})
+                    continue
+                dd = numpy.asarray(d.dagger().array, dtype=object).reshape(m, n)
+                if not all(eq(dd[i, j], data[i, j]) for i in range(m) for j in range(n)):
+                    fail("dagger is not involutive on a tensor with %s entries" % kind, {"dom": dom, "cod": cod})
+                    continue
+            else:
+                base_ = numpy.array([[rng.randint(-4, 4) + 1j * rng.randint(-4, 4) for _ in range(n)] for _ in range(m)])
+                if kind == "fortran":
+                    given = numpy.asfortranarray(base_.reshape(tuple(dom) + tuple(cod)))
+                elif kind == "view":
+                    given = base_.T.conj().T.conj()          # a view chain, same values
+                    given = numpy.asfortranarray(given) if rng.random() < 0.5 else given
+                else:                                          # flattened matrix, Fortran-contiguous
+                    given = numpy.asfortranarray(base_) if rng.random() < 0.5 else base_.conj().T.conj().T
+                    if rng.random() < 0.5:
+                        given = base_.T.copy().T               # F-contiguous, not C-contiguous
+                t = Tensor(Dim(*dom), Dim(*cod), given)
+                ref = Tensor(Dim(*dom), Dim(*cod), base_.tolist())
+                got = numpy.asarray(t.array).reshape(m, n)
+                if not numpy.array_equal(got, base_) or not (t == ref):
+                    fail("a Tensor built from a %s array differs from the one built from the same entries as lists" % kind,
+                         {"dom": dom, "cod": cod, "entries": base_.tolist(), "got": got.tolist(),
+                          "flags": "F=%s C=%s" % (given.flags["F_CONTIGUOUS"], given.flags["C_CONTIGUOUS"])})
+                    continue
+                dg = numpy.asarray(Tensor(Dim(*cod), Dim(*dom), base_.conj().T).array).reshape(n, m)
+                if not numpy.array_equal(numpy.asarray(ref.dagger().array).reshape(n, m), dg):
+                    fail("Tensor(dom, cod, M).dagger() != Tensor(cod, dom, M.conj().T)", {"dom": dom, "cod": cod,
+                                                                                         "entries": base_.tolist()})
+                    continue
+        except Exception as exc:   # noqa
+            fail("tensor with a %s array raised %s: %s" % (kind, type(exc).__name__, exc), {"dom": dom, "cod": cod})
+            continue
+        rep.count("oracle:exotic-array:pass")
+
+
 def settle(rep, ti, proof_ok, proof_file):
     """base.settle with replay snippets for tensor_impl: unexplained correspondence
     disagreements / a broken proof stage become violations (after the oracle had
@@ -1087,6 +1176,7 @@ def run(tier, seed):
             rep.count("impl:" + key, n)
     if ti.UNKNOWN_CLASSES:
         rep.extra["unknown_exception_classes"] = list(ti.UNKNOWN_CLASSES)
+    exotic_array_stream(rep, random.Random(seed + 88), 120 if tier == "quick" else 2000)
     settle(rep, ti, proof_ok, "C08")
     trusted = [t for t in base.TRUSTED_CORE]
     trusted[1] = trusted[1].replace("coq/Core/*.v", "coq/Tensor/NumpyModel.v, coq/Tensor/Tensor.v")
